@@ -1279,4 +1279,62 @@ example : (simulateRecord (τ := String) (α := Nat)
 /-- the single-argsort slip is refuted by the model: a 3-cycle is not its own inverse -/
 example : fancyIndex [10, 20, 30] (argsortBy ltD ["c", "a", "b"]) = .ok [20, 30, 10] := by decide
 
+/-! ### a `PKPDModel` keeps its doses: the solver a `simulate` runs on integrates with the model's regimen after
+    every history of switching sensitivities on / off (directly, through `set_outputs`, through a reduced
+    wrapper) and of setting regimens -/
+
+section dosing
+variable {ρ : Type}
+
+theorem C09_dose_step (s : DoseState ρ) (op : DoseOp ρ) (h : s.solver = s.regimen) :
+    (doseStep s op).solver = (doseStep s op).regimen := by
+  cases op with
+  | setRegimen r => rfl
+  | sens enabled =>
+    cases enabled <;> cases hs : s.sensOn <;> simp [doseStep, sbmlSens, hs, h]
+
+theorem C09_dose_history (ops : List (DoseOp ρ)) : ∀ s : DoseState ρ, s.solver = s.regimen →
+    (doseRun s ops).solver = (doseRun s ops).regimen := by
+  induction ops with
+  | nil => intro s h; exact h
+  | cons op ops ih => intro s h; exact ih _ (C09_dose_step s op h)
+
+theorem C09_dose_sens_keeps_regimen (s : DoseState ρ) (b : Bool) :
+    (doseStep s (.sens b)).regimen = s.regimen ∧ (doseStep s (.sens b)).sensOn = b := by
+  cases b <;> cases hs : s.sensOn <;> simp [doseStep, sbmlSens, hs]
+
+theorem doseRun_append (a b : List (DoseOp ρ)) : ∀ s : DoseState ρ,
+    doseRun s (a ++ b) = doseRun (doseRun s a) b := by
+  induction a with
+  | nil => intro s; rfl
+  | cons o os ih => intro s; exact ih _
+
+theorem doseRun_sens_regimen (bs : List Bool) : ∀ s : DoseState ρ,
+    (doseRun s (bs.map .sens)).regimen = s.regimen := by
+  induction bs with
+  | nil => intro s; rfl
+  | cons b bs ih =>
+    intro s
+    simp only [List.map_cons, doseRun]
+    rw [ih, (C09_dose_sens_keeps_regimen s b).1]
+
+theorem C09_dose_last_regimen (ops : List (DoseOp ρ)) (s : DoseState ρ) (r : ρ) (bs : List Bool) :
+    (doseRun s (ops ++ [.setRegimen r] ++ bs.map .sens)).regimen = some r := by
+  rw [doseRun_append, doseRun_sens_regimen, doseRun_append]
+  rfl
+
+/-- the solver a `simulate` runs on integrates with the regimen set last, whatever was switched
+    on and off in between, provided the model started consistent -/
+theorem C09_dose_solver_last (ops : List (DoseOp ρ)) (s : DoseState ρ) (r : ρ) (bs : List Bool)
+    (h : s.solver = s.regimen) :
+    (doseRun s (ops ++ [.setRegimen r] ++ bs.map .sens)).solver = some r := by
+  rw [C09_dose_history _ s h, C09_dose_last_regimen]
+
+/-- taking the decision AFTER the base-class call (when `sensOn` already equals `enabled`) loses the doses -/
+example : let s : DoseState Nat := { sensOn := true, regimen := some 1, solver := some 1 }
+    let s1 := sbmlSens s false
+    (if (false || s1.sensOn) then { s1 with solver := s1.regimen } else s1).solver = none := by
+  decide
+end dosing
+
 end ChiModel.Mech
